@@ -133,7 +133,7 @@ prop(
          "every k in 1..=W of every generated history is run; a cell = (write site, enclosing operation, recovery outcome)",
     sizes=tiers(16, 2, 75, 16, 60, 1500, min_evals=300, min_cells=10),
     technique="runtime fault injection at the before_write hook (process-death model: writes < k durable, write k and later never happen), restart from disk, bounded-progress recovery, reference-indexer comparison",
-    level_text="For every generated sync history (first-run initialisation, set_scripts all / delete, filter batches, block download and indexing, tip updates, check point finalization, shallow fork rollback, restarts) a crash-free run is validated against the reference indexer and then every write boundary of that history is crashed: the store must reopen (twice in a row) without panic and continued syncing must reach answers equal to the reference at the final tip.",
+    level_text="For every generated sync history (first-run initialisation, set_scripts all / delete, filter batches, block download and indexing, tip updates, check point finalization, shallow fork rollback, restarts) a crash-free run is validated against the reference indexer and then every write boundary of that history is crashed: the store must reopen (twice in a row) without panic and continued syncing must reach answers equal to the reference at the final tip. set_scripts calls arrive both at rest and mid-sync (matched blocks pending). A mismatch is attributed to the crash only if the same history with a clean restart at the same act is clean; mismatches that the clean restart reproduces are counted, not judged (they belong to C04 / C05).",
     level_note="process death between two writes (batches are atomic); torn writes / fsync loss are out of scope; all scripts are registered with start number 0 so that the reference is exact; one serving peer keeps the write sequence reproducible (crash points not reached are counted, not claimed)",
 )
 
